@@ -136,6 +136,9 @@ def verify_worker(job):
     except RecursionError:
         out['unsupported'] = 'recursion limit in symbolic execution'
         return out
+    except Exception as ex:      # noqa: an engine error on this contract must not take the other contracts down
+        out['unsupported'] = 'engine error: %r\n%s' % (ex, traceback.format_exc()[-1200:])
+        return out
     if tier == 'quick':
         solve_all(v.obligations, z3_timeout_ms=10000, cvc5_timeout_ms=20000, both=False, procs=1)
     else:
